@@ -165,7 +165,8 @@ Definition collect_vote (c : cfg) (st : vstate) (v : vote) (deferred : bool) : v
 Inductive event : Type :=
 | EVote (v : vote)         (* a VoteMsg is handled *)
 | EPropose (b : binfo)     (* a ProposeMsg is handled: the block is stored, then the delayed votes are re-queued *)
-| EHigh (b : binfo).       (* the high QC moves to a (stored) block: UpdateHighQC *)
+| EHigh (b : binfo)        (* the high QC moves to a (stored) block: UpdateHighQC *)
+| ETC (v : view).          (* the high TC moves to view v: UpdateHighTC — the collector never reads it *)
 
 Fixpoint feed (c : cfg) (st : vstate) (vs : list vote) : vstate * list qcert :=
   match vs with
@@ -185,6 +186,7 @@ Definition step (c : cfg) (st : vstate) (e : event) : vstate * list qcert :=
       (mkSt (store_block (st_store st) b)
             (if N.ltb (st_high st) (b_view b) then b_view b else st_high st)
             (st_deferred st) (st_verified st), [])
+  | ETC _ => (st, [])
   end.
 
 (* outputs per step, and the final state *)
